@@ -34,7 +34,8 @@ def gen_abstract(rng):
         entries = [e for e in entries if not e[0].startswith("src/pkg/")] + [["src/pkg/*.py", pats]]
     return dict(version=ver, pattern=vp, commit_message=rng.choice(["absent"] + MESSAGES), tag_message=rng.choice(["absent", "absent"] + MESSAGES),
                 tag_scope=rng.choice(["absent", "default", "global", "branch"]), pre=rng.choice(["absent", "absent", "hooks/pre.sh"]), post=rng.choice(["absent", "absent", "hooks/post.sh"]),
-                commit=commit, tag=tag, push=push, entries=entries, self_explicit=rng.random() < 0.2)
+                commit=commit, tag=tag, push=push, entries=entries, self_explicit=rng.random() < 0.3,
+                self_extra=rng.choice([[], [], ["rel {version}"], ["rel {version}", "badge-{version}-x"]]))
 
 
 def write_config(A, fname, section, syntax, rng):
@@ -60,7 +61,7 @@ def write_config(A, fname, section, syntax, rng):
         lines.append("[%s:file_patterns]" % section)
         ents = list(A["entries"])
         if A["self_explicit"]:
-            ents.append([fname, [lines[1].replace(A["version"], "{version}")]])        # spelled like the line it has to match
+            ents.append([fname, [lines[1].replace(A["version"], "{version}")] + A["self_extra"]])        # spelled like the line it has to match, plus further patterns
         for path, pats in ents:
             lines.append("%s =" % path)
             for p in pats:
@@ -84,7 +85,7 @@ def write_config(A, fname, section, syntax, rng):
         lines.append("[%s.file_patterns]" % section)
         ents = list(A["entries"])
         if A["self_explicit"]:
-            ents.append([fname, ['current_version = "{version}"']])
+            ents.append([fname, ['current_version = "{version}"'] + A["self_extra"]])
         for path, pats in ents:
             lines.append('%s = [%s]' % (project.toml_str(path), ", ".join(project.toml_str(p) for p in pats)))
         cvline = lines[1]
@@ -153,7 +154,8 @@ def load_case(job):
                 self_asts.append(glue.parse_pattern(sp_, file_pattern=True))
             except glue.OutsideGrammar:
                 pass
-    return dict(ev="load", A=absA, fmt=fname + "[" + section + "]", loaded=loaded, cfgfile=fname, self=self_asts, cvline=glue.cp(cvline), show_exit=r.exit, show_out=r.stdout,
+    selfwant = [glue.cp(p.replace("{version}", A["pattern"])) for p in A["self_extra"]] if A["self_explicit"] else []
+    return dict(ev="load", A=absA, fmt=fname + "[" + section + "]", loaded=loaded, cfgfile=fname, self=self_asts, selfwant=selfwant, selfraw=[glue.cp(p) for p in selfp], cvline=glue.cp(cvline), show_exit=r.exit, show_out=r.stdout,
                 group=json.dumps(A, sort_keys=True), dbg="%s [%s]: %s" % (fname, section, {k: v for k, v in A.items() if v not in ("absent", [], False)}), text=text)
 
 
